@@ -71,6 +71,22 @@ def _as_int(v: float):
     return (int(r) if ok else -1), ok
 
 
+def _perturb(pit, arch, rng) -> None:
+    """Move every mask of `pit` somewhere else and flip its switches (used on the original after a fork)."""
+    with torch.no_grad():
+        for m in pit.modules():
+            for nm in ("alpha", "beta", "gamma"):
+                t = getattr(m, nm, None)
+                if isinstance(t, torch.Tensor) and t.dim() == 1 and type(m).__name__.startswith("PIT"):
+                    t.copy_(torch.tensor([rng.choice([0.0, 1.0, 0.3, -1.0]) for _ in range(t.numel())], dtype=t.dtype))
+    try:
+        pit.discrete_cost = not pit.discrete_cost
+        pit.train_features = not pit.train_features
+        pit.train()
+    except Exception:
+        pass
+
+
 def run(sc: Dict[str, Any]) -> Dict[str, Any]:
     arch = norm_arch(sc["arch"])
     props = {"C01": False, "C04": False, "C08": False, "C09": False}
@@ -90,7 +106,7 @@ def run(sc: Dict[str, Any]) -> Dict[str, Any]:
     full = any(c.get("full", False) for c in costs)
     try:
         ref, pit, x = pitdrv.build(arch, fold_bn=tr["fold"], seed=sc.get("seed", 0), cost=cost_arg, full_cost=full,
-                                   variant=sc.get("variant", "auto"))
+                                   variant=sc.get("variant", "auto"), example_batch=int(sc.get("xb", 0)))
         tr["conv_ok"] = True
     except Exception as e:
         tr["conv_err"] = f"{type(e).__name__}: {str(e)[:100]}"
@@ -242,6 +258,12 @@ def run(sc: Dict[str, Any]) -> Dict[str, Any]:
                     warnings.simplefilter("ignore")
                     pit.export()
                 pit.eval()
+            elif op == "fork":
+                # "keep the best model so far": everything from here on happens on a deep copy, while the ORIGINAL
+                # object goes on being searched (other masks, other switches, other cost mode)
+                orig = pit
+                pit = copy.deepcopy(orig)
+                _perturb(orig, arch, rng)
         except Exception:
             pass
     pit.discrete_cost = True
